@@ -1,14 +1,88 @@
 package main
 
-// Replay of solver models on the real code (go test -overlay). Templates are registered per function family.
+// Replay of solver counterexamples on the real code (go test -overlay, nothing written into the repo). A template exists
+// for one family so far: lock-balance obligations of the operations layer, where the counterexample's path (which seam
+// fails) is scripted into fakes and the drive is probed afterwards. Everything else reports no-failing-input-found and
+// attaches the solver's model.
 
-func tryReplay(cr *checkRun, r *OblResult, sr *SiteResult, rep map[string]interface{}) (bool, string) {
-	if t := replayTemplates[topName(r.Obl.tr)]; t != nil {
-		return t(cr, r, sr, rep)
-	}
-	return false, "no replay template for this function family; model attached in solver_output"
-}
+import (
+	"encoding/json"
+	"os"
+	"os/exec"
+	"path/filepath"
+	"regexp"
+	"strings"
+)
 
 type replayFn func(cr *checkRun, r *OblResult, sr *SiteResult, rep map[string]interface{}) (bool, string)
 
-var replayTemplates = map[string]replayFn{}
+func tryReplay(cr *checkRun, r *OblResult, sr *SiteResult, rep map[string]interface{}) (bool, string) {
+	fn := topName(r.Obl.tr)
+	for suffix, op := range map[string]string{
+		"operations.Operations).Delete":  "Delete",
+		"operations.Operations).Move":    "Move",
+		"operations.Operations).Update":  "Update",
+		"operations.Operations).archive": "Archive",
+		"operations.Operations).Archive": "Archive",
+		"operations.Operations).Restore": "Restore",
+	} {
+		if strings.HasSuffix(fn, suffix) && (r.Obl.Label == "drive-free" || r.Obl.Label == "ops-free" || strings.HasPrefix(r.Obl.Label, "pre.") || strings.HasPrefix(r.Obl.Label, "frame.")) {
+			return replayOpsFault(op, sr, rep)
+		}
+	}
+	return false, "no replay template for this function family; the solver's model is attached in solver_output"
+}
+
+var lastCallRe = regexp.MustCompile(`(?:after|at) ([A-Za-z_$0-9]+)#(\d+)`)
+
+func faultFor(site string) string {
+	m := lastCallRe.FindStringSubmatch(site)
+	if m == nil {
+		return ""
+	}
+	switch name := m[1]; name {
+	case "GetHeader", "GetHeaderByLinkname", "GetHeaderChildren", "GetLastIndexedRecordAndBlock", "UpsertHeader", "UpdateHeaderMetadata", "MoveHeader", "DeleteHeader":
+		return "persister:" + name + "#1"
+	case "GetWriter", "CloseWriter", "GetReader", "CloseReader":
+		return "backend:" + name
+	case "cleanup":
+		return "trailer"
+	case "WriteHeader", "Copy", "CopyBuffer", "Flush", "Close":
+		return "drivewrite#1"
+	case "SignHeader", "Sign":
+		return "badsign"
+	case "EncryptHeader", "Encrypt":
+		return "badencrypt"
+	case "GetFile":
+		return "src#1"
+	case "Index":
+		return "persister:UpsertHeader#1"
+	}
+	return ""
+}
+
+func replayOpsFault(op string, sr *SiteResult, rep map[string]interface{}) (bool, string) {
+	fault := faultFor(sr.Site.Sig)
+	if fault == "" {
+		return false, "the failing path ends after a callee that cannot be made to fail from outside (no fault seam); model attached"
+	}
+	tmpl := filepath.Join(verifDir, "replay", "templates", "ops_fault_test.go")
+	ov := map[string]map[string]string{"Replace": {filepath.Join(repoDir(), "pkg/operations", "zz_verif_ops_fault_test.go"): tmpl}}
+	ovFile := filepath.Join(scratchDir(), "overlay_replay.json")
+	b, _ := json.Marshal(ov)
+	os.WriteFile(ovFile, b, 0o644)
+	cmd := exec.Command("go", "test", "-overlay", ovFile, "-v", "-vet=off", "-count=1", "-timeout", "60s", "-run", "TestVerifReplay_OpsFault$", "./pkg/operations/")
+	cmd.Dir = repoDir()
+	cmd.Env = append(os.Environ(), "GOFLAGS=-mod=mod", "GOPROXY=off", "GOSUMDB=off", "GOTOOLCHAIN=local", "VERIF_OP="+op, "VERIF_FAULT="+fault)
+	out, err := cmd.CombinedOutput()
+	text := string(out)
+	rep["replay_cmd"] = "VERIF_OP=" + op + " VERIF_FAULT=" + fault + " /verif/tools/replay.sh " + repoDir() + " pkg/operations 'TestVerifReplay_OpsFault$' " + tmpl
+	rep["replay_output"] = truncate(text, 6000)
+	if strings.Contains(text, "DRIVE-NOT-FREE") || strings.Contains(text, "HANG:") {
+		return true, "replayed on the real code: " + op + " with fault " + fault + " leaves the drive locked (see replay_output)"
+	}
+	if err != nil {
+		return false, "replay ran (" + op + ", fault " + fault + ") but failed for another reason; see replay_output"
+	}
+	return false, "replay ran (" + op + ", fault " + fault + ") and the real code released the drive on that particular input; the obligation still fails (model attached)"
+}
